@@ -121,7 +121,7 @@ CLAIMED["C12"] = (
 CLAIMED["C13"] = (
     "fault_enumeration",
     "exhaustive enumeration of conforming RTR cache scripts x delivery fragmentation x session-loss points against the real serve_inner over an in-memory duplex",
-    "Scripts from the RFC 6810/8210 grammar with <= 2 (thorough 3) incremental rounds over 3 prefixes (announce / withdraw), Cache Reset, Error Report, Router Key PDUs at any position, versions 0 and 1 (4052 scripts quick, 60 284 thorough), produced by an independent PDU encoder; delivered whole, byte-wise and split at every offset of every PDU; connection closed (EOF) or failing with a read error (reset) after every PDU; two caches on one TableManager in every segment interleaving (306 650 executions quick, 1.02e7 thorough). After each End-of-Data collect_roa for the cache equals the fold of its script, the other cache is untouched, nothing is left after the session ends, and every delivered PDU of any type is consumed (a parked client with unconsumed complete PDUs is a wedge).",
+    "Scripts from the RFC 6810/8210 grammar with <= 2 (thorough 3) incremental rounds over 3 prefixes (announce / withdraw), Cache Reset, Error Report, Router Key PDUs at any position, versions 0 and 1 (4052 scripts quick, 60 284 thorough), produced by an independent PDU encoder; delivered whole, byte-wise and split at every offset of every PDU; connection closed (EOF), failing with a read error (reset), or with the client's write side broken before the next Serial Notify, after every PDU; two caches on one TableManager in every segment interleaving (306 650 executions quick, 1.02e7 thorough). After each End-of-Data collect_roa for the cache equals the fold of its script, the other cache is untouched, nothing is left after the session ends, and every delivered PDU of any type is consumed (a parked client with unconsumed complete PDUs is a wedge).",
     "Quiescence = the client has read every byte written and is parked in poll_read (tap on the duplex), bounded yield loops + watchdog (expiry = machinery error). Malformed RTR input is C03's subject. Built by a helper sub-agent; 2 defects found and repaired.",
     "DESIGN.md §5 C13",
 )
